@@ -106,9 +106,12 @@ def run_check(pid: str, tier: str, level: str, parts: List[Part], assumptions: L
     violations = 0
     twins_ok = 0
     validated = 0
+    only = os.environ.get("VERIF_ONLY_PART")  # development only: run the parts whose name contains this string
     for part in parts:
         if violations and os.environ.get("VERIF_STOP_AT_FIRST"):
             break  # (seeded-change matrix only: one confirmed violation is enough)
+        if only and only not in part.name:
+            continue
         r = engine.explore(part.harness, budget_s=part.budget_s, split_depth=part.split_depth)
         rep: Dict[str, Any] = {
             "part": part.name, "bounds": part.bounds, "stats": r.stats.as_dict(), "wall_s": round(r.wall_s, 2),
